@@ -715,12 +715,12 @@ fn run_script(cx: &mut Ctx, ops: &[Op], kind: &str, bufsize: usize, with_old: bo
             let dump = if bytes.len() < 400 { hex(bytes) } else { "".into() };
             match r {
                 Err(p) => cx.verdict(false, if reader == "old" { "panic_old" } else { "panic_new" }, &tag, &format!("{}: {}", ctx, p)),
-                Ok(Err(e)) => cx.verdict(false, if is_new { "new_compressor_bad_pointer" } else { "built_old_unreadable" }, &tag, &format!("{}: {} :: {}", ctx, e, dump)),
+                Ok(Err(e)) => cx.verdict(false, if *nm == "new_rev" { "new_revname_compressor_bad_pointer" } else if is_new { "new_compressor_bad_pointer" } else { "built_old_unreadable" }, &tag, &format!("{}: {} :: {}", ctx, e, dump)),
                 Ok(Ok(items)) => {
                     let ok = &items == want;
                     // a difference confined to names (owner / name-bearing RDATA) is the compressor's
                     let names_only = items.len() == want.len() && items.iter().zip(want.iter()).all(|(a, b)| a.0 == b.0 && a.2 == b.2 && a.3 == b.3 && (a.4 == b.4 || [2u16, 5, 15].contains(&a.2)));
-                    let cls = if is_new && names_only { "new_compressor_bad_pointer".to_string() } else if is_new { format!("built_new_read_{}_mismatch", reader) } else { format!("built_old_read_{}_mismatch", reader) };
+                    let cls = if is_new && names_only { (if *nm == "new_rev" { "new_revname_compressor_bad_pointer" } else { "new_compressor_bad_pointer" }).to_string() } else if is_new { format!("built_new_read_{}_mismatch", reader) } else { format!("built_old_read_{}_mismatch", reader) };
                     cx.verdict(ok, &cls, &tag, &format!("{}: {} :: {}", ctx, first_diff(want, &items), dump));
                 }
             }
@@ -827,6 +827,7 @@ fn main() {
     // the parent-attachment defect: b.c, a.c, x.a.b.c
     run_script(&mut cx, &[Op::Q(l(&["b", "c"]), 1), Op::R(1, l(&["a", "c"]), 60, Rd::A([1, 2, 3, 4])), Op::R(1, l(&["x", "a", "b", "c"]), 60, Rd::A([1, 2, 3, 4]))], "script:regress", 600, true);
     run_script(&mut cx, &[Op::R(1, l(&["b", "c"]), 60, Rd::Ns(l(&["a", "c"]))), Op::R(1, l(&["x", "a", "b", "c"]), 60, Rd::CName(l(&["y", "a", "c"])))], "script:regress", 600, true);
+    run_script(&mut cx, &[Op::Q(l(&["b", "c"]), 1), Op::R(1, l(&["x", "b", "c"]), 60, Rd::A([1, 2, 3, 4]))], "script:regress", 600, true);
     // pointer arithmetic at the 16 KiB boundary
     for base in [16340usize, 16360, 16372, 16380, 16384, 16395, 16400] {
         let mut ops = vec![];
